@@ -3,6 +3,7 @@ package bmreqs
 import (
 	"errors"
 	"fmt"
+	"sort"
 	"strings"
 )
 
@@ -146,7 +147,13 @@ func (rg *ReqRoot) run() {
 func (rg *ReqRoot) recursiveDump(node string) (string, error) {
 	if n, err := rg.decodeNode(node); err == nil {
 		result := ""
-		for name, set := range n.bmReqMap {
+		names := make([]string, 0, len(n.bmReqMap))
+		for name := range n.bmReqMap {
+			names = append(names, name)
+		}
+		sort.Strings(names)
+		for _, name := range names {
+			set := n.bmReqMap[name]
 			result += node[1:] + "/" + name + "[" + set.getReqs() + "]\n"
 			if set.supportSub() {
 				subs := set.listSub()
@@ -169,7 +176,13 @@ func (rg *ReqRoot) recursiveDump(node string) (string, error) {
 
 func (rg *ReqRoot) Export(r *ExportedReqs, node string) error {
 	if n, err := rg.decodeNode(node); err == nil {
-		for name, set := range n.bmReqMap {
+		names := make([]string, 0, len(n.bmReqMap))
+		for name := range n.bmReqMap {
+			names = append(names, name)
+		}
+		sort.Strings(names)
+		for _, name := range names {
+			set := n.bmReqMap[name]
 			*r = append(*r, ExportedReq{Node: node, Type: set.getType(), Req: set.getReqs(), Name: name})
 			if set.supportSub() {
 				subs := set.listSub()
